@@ -598,8 +598,12 @@ func check(id, tier string) int {
 			bad := func(kind string, mm map[string]int) {
 				for msg, n := range mm {
 					short := msg
-					if len(short) > 400 {
-						short = short[:400]
+					lim := 400
+					if os.Getenv("GOSYM_VERBOSE") != "" {
+						lim = 4000
+					}
+					if len(short) > lim {
+						short = short[:lim]
 					}
 					fmt.Printf("INCONCLUSIVE property=%s harness=%s %s x%d: %s\n", id, h.Entry, kind, n, short)
 					inconclusive = append(inconclusive, h.Entry+" "+kind)
